@@ -121,7 +121,47 @@ fn profile() -> Profile {
 }
 
 pub fn generate(seed: u64) -> Scenario {
-    let w = gen_world(seed, &profile());
+    let mut w = gen_world(seed, &profile());
+    // request twins: the same URL and type asked on behalf of two different pages (one inside, one
+    // outside a rule's $domain list where there is such a rule). Threads of one phase ask both at about
+    // the same time, so an answer handed from one thread to another shows.
+    let mut hot: Vec<(usize, usize)> = vec![];
+    {
+        let mut hr = Rng::stream(seed, "c19hot");
+        let mut cands: Vec<(String, String)> = vec![];
+        for rule in &w.rules {
+            if let RuleSpec::Net(n) = &rule.spec {
+                if let Some(d) = n.opts.iter().find_map(|o| o.strip_prefix("domain=").or_else(|| o.strip_prefix("from="))) {
+                    let first = d.split('|').next().unwrap_or("").trim_start_matches('~').to_string();
+                    if first.is_empty() || first.contains('*') {
+                        continue;
+                    }
+                    if let Some(url) = url_for_pattern(&mut hr, &n.pat) {
+                        cands.push((url, first));
+                    }
+                }
+            }
+        }
+        hr.shuffle(&mut cands);
+        for (url, dom) in cands.into_iter().take(3) {
+            let rtype = hr.pick(&["script", "image", "xmlhttprequest", "other"]).to_string();
+            let outside = hr.pick(HOSTS).to_string();
+            let a = w.probes.len();
+            w.probes.push(Probe { url: url.clone(), source: format!("https://{}/", dom), rtype: rtype.clone() });
+            w.probes.push(Probe { url, source: format!("https://{}/", outside), rtype });
+            hot.push((a, a + 1));
+        }
+        if !w.probes.is_empty() {
+            for _ in 0..2 {
+                let i = hr.below(w.probes.len());
+                let mut tw = w.probes[i].clone();
+                tw.source = format!("https://{}/", hr.pick(HOSTS));
+                let b = w.probes.len();
+                w.probes.push(tw);
+                hot.push((i, b));
+            }
+        }
+    }
     let mut r = Rng::stream(seed, "c19");
     let blocker = r.chance(40);
     let n_phases = match r.below(10) {
@@ -159,6 +199,15 @@ pub fn generate(seed: u64) -> Scenario {
                 qs.push(q);
             }
             threads.push(qs);
+        }
+        if !hot.is_empty() && r.chance(60) {
+            let (a, b) = *r.pick(&hot);
+            for (ti, qs) in threads.iter_mut().enumerate() {
+                for _ in 0..r.range(1, 2) {
+                    let at = r.below(qs.len() + 1);
+                    qs.insert(at, Q::Net(if ti % 2 == 0 { a } else { b }));
+                }
+            }
         }
         let subset = |r: &mut Rng| -> Vec<String> { w.tags.iter().filter(|_| r.chance(50)).cloned().collect() };
         let then = if pi + 1 == n_phases {
